@@ -464,8 +464,70 @@ func nearFull(r *vh.Run, rng *vh.RNG, name string, v2 bool) {
 	w.Finish(true, "near-full", fmt.Sprintf("near-full-v2:%v", v2))
 }
 
+// revertedParent: more than a block's worth of v1 transactions is queued; a v1 parent P is confirmed,
+// a v2 child C of its output is pooled, then a reorg reverts P: the pool is v1 [H1, H2, P], v2 [C] with
+// C's input unconfirmed again.  The block MineBlock assembles must stay a prefix of "v1 then v2":
+// when the v1 part does not fit, no v2 transaction may follow.
+func revertedParent(r *vh.Run, rng *vh.RNG, name string) {
+	w := poolrig.NewWorld(r, rng, name, chainx.PoolNet(rng, 1, 1000))
+	g := &poolrig.Gen{W: w, Rng: rng}
+	g.Track = poolrig.NewTracker(w)
+	tip := 0
+	for i := 0; i < 4; i++ {
+		tip = w.GrowRandom(tip, 0)
+	}
+	w.Refresh()
+	cs := w.Node.CM.TipState()
+	free := w.FreeCoins()
+	if len(free) < 3 {
+		w.Finish(false, "reverted-parent-skipped")
+		return
+	}
+	for k := 0; k < 2; k++ {
+		h := w.SpendV1(cs, free[k:k+1], 1, poolrig.Fee(30+k), 1_100_000+rng.Intn(200_000))
+		g.AddV1([]types.Transaction{h}, nil, "fresh", -1, false)
+	}
+	p := w.SpendV1(cs, free[2:3], 2, poolrig.Fee(12), 0)
+	x, err := w.Tree.MineWith(rng, tip, []types.Transaction{p}, nil, 1)
+	if err != nil {
+		w.C.Oracle("generator-block-invalid", "X: %v", err)
+		w.Finish(false, "reverted-parent-skipped")
+		return
+	}
+	w.Submit(x)
+	w.Refresh()
+	var coin *poolrig.Coin
+	for _, c := range w.CoinsOf(w.Led, w.Node.CM.Tip().Height+1) {
+		if c.ID == p.SiacoinOutputID(0) {
+			cc := c
+			coin = &cc
+		}
+	}
+	if coin == nil {
+		w.Finish(false, "reverted-parent-skipped")
+		return
+	}
+	child := w.SpendV2(w.Node.CM.TipState(), []poolrig.Coin{*coin}, 1, poolrig.Fee(14), 0)
+	if g.AddV2(w.TipID(), []types.V2Transaction{child}, nil, "fresh", -1, false) != "ok" {
+		w.Finish(false, "reverted-parent-skipped")
+		return
+	}
+	// the reorg that reverts X
+	y := tip
+	for i := 0; i < 2; i++ {
+		y = w.GrowRandom(y, 0)
+	}
+	w.Refresh()
+	g.Track.Check()
+	reorged := w.TipID() == y
+	_, ok := w.Mine()
+	w.Refresh()
+	g.Track.Check()
+	w.Finish(reorged && ok, "reverted-parent")
+}
+
 func Run(r *vh.Run) {
-	r.Rule = "four case families. history: one real chain.Manager on a growing fork tree driven by 50-90 steps mixing the C14 submission classes (fresh, chained/ephemeral, known, conflicting at k, invalid at k, stale/unknown basis) with blocks confirming pool prefixes, fork branches that overtake the tip (reorg depth 1-3), parent/child sets followed by an unrelated block, and blocks assembled by coreutils.MineBlock; non-trivial = at least one reorg and one accepted set. near-full: ten 1.9M-weight transactions (just below the eviction threshold), then a rejected set whose heavy first member would cross it and whose last member double-spends a pooled input; the next query must report the same pool. resubmit: a 1.7-1.9M-weight pooled transaction (and its child) resubmitted 12 times between two blocks inside sets that also carry a new small transaction (the skipped members must not count towards the pool weight: 12 x 1.8M would reach the eviction threshold), v2 / v1. heavy-parent: a pool whose first non-fitting transaction (1.1-1.4M weight behind another one) is the parent of later small ones, v2 / v1 / mixed, then MineBlock. exact-weight: a pool prefix weighing MaxBlockWeight-d for d in {0,1,5,11,12,13,500}, v1 or v2, with or without v2 block data, then MineBlock twice. full-pool: 14 transactions of 1.5-1.9M weight with distinct fee rates (eviction at 10 x MaxBlockWeight), then MineBlock; distinct = distinct op lists"
+	r.Rule = "four case families. history: one real chain.Manager on a growing fork tree driven by 50-90 steps mixing the C14 submission classes (fresh, chained/ephemeral, known, conflicting at k, invalid at k, stale/unknown basis) with blocks confirming pool prefixes, fork branches that overtake the tip (reorg depth 1-3), parent/child sets followed by an unrelated block, and blocks assembled by coreutils.MineBlock; non-trivial = at least one reorg and one accepted set. near-full: ten 1.9M-weight transactions (just below the eviction threshold), then a rejected set whose heavy first member would cross it and whose last member double-spends a pooled input; the next query must report the same pool. resubmit: a 1.7-1.9M-weight pooled transaction (and its child) resubmitted 12 times between two blocks inside sets that also carry a new small transaction (the skipped members must not count towards the pool weight: 12 x 1.8M would reach the eviction threshold), v2 / v1. reverted-parent: two 1.2M-weight v1 transactions queued, a v1 parent confirmed, its v2 child pooled, a reorg that reverts the parent (pool: v1 [H1, H2, P], v2 [C unconfirmed again]), then MineBlock. heavy-parent: a pool whose first non-fitting transaction (1.1-1.4M weight behind another one) is the parent of later small ones, v2 / v1 / mixed, then MineBlock. exact-weight: a pool prefix weighing MaxBlockWeight-d for d in {0,1,5,11,12,13,500}, v1 or v2, with or without v2 block data, then MineBlock twice. full-pool: 14 transactions of 1.5-1.9M weight with distinct fee rates (eviction at 10 x MaxBlockWeight), then MineBlock; distinct = distinct op lists"
 	rng := vh.NewRNG(r.Seed).Fork()
 	n := r.Pick(60, 1200)
 	for i := 0; i < n; i++ {
@@ -484,6 +546,9 @@ func Run(r *vh.Run) {
 	}
 	for i := 0; i < r.Pick(2, 6); i++ {
 		zombie(r, rng.Fork(), fmt.Sprintf("z%d", i), i%2 == 0)
+	}
+	for i := 0; i < r.Pick(2, 6); i++ {
+		revertedParent(r, rng.Fork(), fmt.Sprintf("q%d", i))
 	}
 	for i := 0; i < r.Pick(3, 12); i++ {
 		heavyParent(r, rng.Fork(), fmt.Sprintf("p%d", i), i%3)
